@@ -14,12 +14,12 @@ def prop(pid, units, level, technique, design_ref, text, note):
 
 
 prop("C14",
-     units=[("verus", "u1_cell", None), ("kani", "u1k_cell", None)],
+     units=[("verus", "u1_cell", None), ("kani", "u1k_cell", None), ("verus", "u10_optloop", None)],
      level="proof",
      technique="Verus deductive proof of trait-level contracts on the real CellType code (all four widths), plus loop-free/width-bounded Kani contract harnesses as counterexample twins",
      design_ref="DESIGN.md section 4-U1, 5-C14",
-     text="Unbounded proof: wrapping_div/inv/pow and the conversions are verified against mathematical contracts generic in the width; each of the four impls is verified against the trait contracts.",
-     note="Trusted: Verus+Z3, vstd, assume_specification of uN::{checked_shl,checked_shr,wrapping_neg}, the extractor's desugarings D1/D3.")
+     text="Unbounded proof: wrapping_div/inv/pow and the conversions are verified against mathematical contracts generic in the width; each of the four impls is verified against the trait contracts. Consumer obligation (unit u10): OptRebuild::analyze_loop, the one place where wrapping_div / wrapping_inv decide a loop's trip count, reports the LEAST k with m + k*inc == 0 (mod 2^bits), reports 'infinite' only when no k exists, and for an unknown initial value a count x with x*(-inc) == [cond].",
+     note="Trusted: Verus+Z3, vstd, assume_specification of uN::{checked_shl,checked_shr,wrapping_neg}, the extractor's desugarings D1/D3/D10. In u10 the analysis state is reduced to three fields (D10), its knowledge comes through three uninterpreted boundary functions, Expr is opaque with the u4 contracts, and Expr::mul's contract is ASSUMED. Not decided: the second consumer (geometric closed form in loop_motion).")
 
 prop("C18",
      units=[("kani", "u3_smallvec", None)],
